@@ -172,13 +172,27 @@ func (p *pathRun) mkPoint(fr *frame, co *curveObj, d, tau *smt.Term) (value, val
 		dz = cg
 	}
 	isId := c.And(dz, c.Eq(tau, c.IntC64(0)))
-	if p.fork(isId, "point is identity") {
+	if p.genericCoins(isId, "computed-point-not-identity") {
+		// all-honest run: a computed point equal to the identity is a coin event (excluded, counted)
+	} else if p.fork(isId, "point is identity") {
 		if co.name == "secp256k1" {
 			return newBigC(big.NewInt(0)), newBigC(big.NewInt(0))
 		}
 		return newBigC(big.NewInt(0)), newBigC(big.NewInt(1))
 	}
 	x, y := p.coordTerms(co, d, tau)
+	if co.name == "secp256k1" {
+		// coin excluded (counted): the x-coordinate of a point computed from symbolic scalars
+		// is >= the group order or 0 (probability < 2^-127); hostile points registered by
+		// IsOnCurve are not covered by this assumption
+		key := fmt.Sprintf("xgen:%d", x.ID)
+		if p.counters[key] == 0 {
+			p.counters[key] = 1
+			p.res.Assumes["x-coordinate-below-order-and-nonzero"]++
+			p.addPC(c.And(c.Gt(x, c.IntC64(0)), c.Lt(x, c.IntC(co.N))))
+			p.noteFits(x, co.N)
+		}
+	}
 	return p.newBig(x), p.newBig(y)
 }
 
